@@ -44,12 +44,10 @@ def load_known_findings():
     return findings
 
 
-def run_shard(pid, tier, seed, shard, nshards, outdir, timeout, replay=None):
+def run_shard(pid, tier, seed, shard, nshards, outdir, timeout):
     out = os.path.join(outdir, 'shard%02d.json' % shard)
     cmd = [PY, '-B', '-m', 'vmon.shard', pid, '--tier', tier, '--seed', str(seed),
            '--shard', str(shard), '--nshards', str(nshards), '--out', out]
-    if replay:
-        cmd += ['--replay', replay]
     env = dict(os.environ)
     env.update(PYTHONDONTWRITEBYTECODE='1', PYTHONHASHSEED='0', MPLBACKEND='Agg',
                OMP_NUM_THREADS='1', OPENBLAS_NUM_THREADS='1', MKL_NUM_THREADS='1')
@@ -102,8 +100,19 @@ def main(argv=None):
             plan.update(eval(line.split('=', 1)[1]))
             break
     nshards = args.shards or plan[tier]
+    only = None
     if args.replay:
-        nshards = 1
+        # a witness replays by re-running, in a fresh interpreter, the shard that produced it with the
+        # same (seed, tier, shard, nshards): generators are seeded from exactly that tuple
+        try:
+            rec = json.load(open(args.replay))
+            tier, seed = rec.get('tier', tier), int(rec.get('seed', seed))
+            nshards = int(rec.get('nshards', plan[tier]))
+            only = int(rec['first'].get('shard', 0))
+            want_key = rec['key']
+        except Exception as exc:
+            print('INCONCLUSIVE property=%s reason=cannot read replay file: %r' % (pid, exc))
+            return 2
     timeout = plan[tier + '_timeout']
 
     t0 = time.time()
@@ -111,15 +120,26 @@ def main(argv=None):
     results = []
     try:
         with concurrent.futures.ThreadPoolExecutor(max_workers=min(nshards, 16)) as ex:
-            futs = [ex.submit(run_shard, pid, tier, seed, i, nshards, outdir, timeout,
-                              args.replay) for i in range(nshards)]
+            futs = [ex.submit(run_shard, pid, tier, seed, i, nshards, outdir, timeout)
+                    for i in range(nshards) if only is None or i == only]
             for f in futs:
                 results.append(f.result())
         merged = merge(pid, tier, seed, nshards, results, outdir)
     finally:
         shutil.rmtree(outdir, ignore_errors=True)
     merged['wall_s'] = round(time.time() - t0, 2)
-    return report(pid, tier, seed, merged, replaying=bool(args.replay))
+    if args.replay:
+        hits = [v for v in merged['violations'] if v['key'] == want_key]
+        if hits:
+            print('VIOLATION property=%s replay=%s' % (pid, args.replay))
+            print('  # reproduced %s: %s (%d witnesses in shard %d/%d, seed %d, tier %s)'
+                  % (want_key, hits[0]['what'][:300], len(hits), only, nshards, seed, tier))
+            return 1
+        other = sorted(set(v['key'] for v in merged['violations']))
+        print('%s replay: key %s not reproduced on the current tree (shard %d/%d, seed %d, tier %s)%s'
+              % (pid, want_key, only, nshards, seed, tier, '; other keys seen: %s' % other if other else ''))
+        return 1 if other else 0
+    return report(pid, tier, seed, merged, replaying=False, nshards=nshards)
 
 
 def merge(pid, tier, seed, nshards, results, outdir):
@@ -178,7 +198,7 @@ def merge(pid, tier, seed, nshards, results, outdir):
     return m
 
 
-def report(pid, tier, seed, m, replaying=False):
+def report(pid, tier, seed, m, replaying=False, nshards=None):
     known = load_known_findings()
     seen_known = {}
     new = []
@@ -203,7 +223,7 @@ def report(pid, tier, seed, m, replaying=False):
         sub = '' if os.path.abspath(os.environ.get('VERIF_REPO', '/repo')) == '/repo' else 'mutant-'
         path = os.path.join('replays', '%s%s-%s-seed%d.json' % (sub, pid, safe, seed))
         with open(os.path.join(HERE, path), 'w') as fh:
-            json.dump({'property': pid, 'key': key, 'tier': tier, 'seed': seed,
+            json.dump({'property': pid, 'key': key, 'tier': tier, 'seed': seed, 'nshards': nshards or m['shards'],
                        'count': len(vs), 'first': vs[0], 'more': vs[1:4]}, fh, indent=1,
                       default=str)
         lines.append('VIOLATION property=%s replay=%s' % (pid, path))
